@@ -1,8 +1,9 @@
 (* C09 — the part of format every control string goes through: control.process, readDir (prefix
-   parameters, modifiers, the v and # parameters), readParam, and the four directives whose whole
-   effect is modelled (~% ~& ~~ ~|).  Every index into the control string, the argument list and the
+   parameters, modifiers, the v and # parameters), readParam, and the directives whose whole
+   effect is modelled: ~% ~& ~~ ~| (repeat a character), ~* (move in the argument list) and ~T (tabulate).  Every index into the control string, the argument list and the
    output is CHECKED here: where the Go code would index out of range the model answers OFault.
-   pkg/cl/control.go:107-273 (process, readDir, readParam), 370-405, 1430-1445, 1669-1684. *)
+   pkg/cl/control.go: process, readDir, readParam, dirPercent, dirAmp, dirTilde, dirPage, dirMove, dirT,
+   getIntParam / intParam. *)
 From Coq Require Export List Bool Arith NArith ZArith Lia.
 Export ListNotations.
 
@@ -103,14 +104,74 @@ Fixpoint read_dir (tb : tabs) (s : list byte) (end_ : Z) (args : list fmtarg) (p
       end
   end.
 
+(* maxDirParam = slip.ArrayMaxDimension = 0x10000000: since repo_fixes/C09-34 a numeric parameter whose
+   magnitude exceeds it is an error (getIntParam), it used to be a repeat count / buffer size as it stood.
+   A bignum picked up by v saturates to the largest / smallest int first, i.e. is also "too large". *)
+Definition max_dir_param : Z := 268435456.
 Definition count_of (params : list param) : option Z :=       (* n of ~n% and friends *)
   match params with
   | [] => Some 1%Z
-  | PInt z :: _ => Some z
+  | PInt z :: _ => if ((z <? - max_dir_param) || (max_dir_param <? z))%Z then None else Some z
   | _ => None                                                  (* invalidDir / invalidDirParam *)
   end.
 Definition rep (n : Z) (b : byte) : list byte := repeat b (Z.to_nat n).
 Definition last_is_nl (out : list byte) : bool := match rev out with 10%N :: _ => true | _ => false end.
+
+(* getIntParam(pos, params, def, notNeg): a missing or empty parameter is the default; a negative number
+   where none is allowed, a number beyond maxDirParam in magnitude, or a character is an error. *)
+Inductive pres := PVal (z : Z) | PErr.
+Definition int_param (params : list param) (pos : nat) (def : Z) (not_neg : bool) : pres :=
+  match nth_error params pos with
+  | None | Some PNil => PVal def
+  | Some (PInt z) => if (not_neg && (z <? 0)%Z) || (z <? - max_dir_param)%Z || (max_dir_param <? z)%Z then PErr else PVal z
+  | Some _ => PErr
+  end.
+
+(* ~* (dirMove).  The count is read with int(RealValue()), exact only up to 2^53: beyond that the
+   directive is left unmodelled. *)
+Inductive mres := MPos (argpos : Z) | MErr | MUnm.
+Definition move_of (colon at_ : bool) (params : list param) (argpos : Z) : mres :=
+  match params with
+  | PNil :: _ | PChar _ :: _ | POther :: _ => MErr                 (* invalidDirParam *)
+  | _ =>
+      let '(n, changed) := match params with PInt z :: _ => (z, true) | _ => (1%Z, false) end in
+      if (9007199254740992 <? Z.abs n)%Z then MUnm
+      else if colon && at_ then MErr
+      else if colon then MPos (argpos - n)
+      else if at_ then MPos (if changed then n else 0%Z)
+      else MPos (argpos + n)
+  end.
+
+(* ~T (dirT).  col_of = the column of the end of the output: bytes after the last newline, return or
+   page (bytes.LastIndexAny(c.out, "\n\r\f")).  pad appends n spaces through the constant `spaces`:
+   whole copies while len(spaces) < n, then spaces[:n] - the slice is CHECKED: a negative n faults. *)
+Definition is_break (b : byte) : bool := N.eqb b 10 || N.eqb b 13 || N.eqb b 12.
+Fixpoint tail_run (r : list byte) : nat := match r with [] => O | b :: r' => if is_break b then O else S (tail_run r') end.
+Definition col_of (out : list byte) : Z := Z.of_nat (tail_run (rev out)).
+Definition pad (out : list byte) (n : Z) : option (list byte) :=
+  if (n <? 0)%Z then None else Some (out ++ repeat 32%N (Z.to_nat n)).
+Inductive tres := TOut (out : list byte) | TErr | TFault.
+Definition t_finish (out : list byte) (n : Z) : tres :=
+  if (max_dir_param <? n)%Z then TErr else match pad out n with None => TFault | Some o => TOut o end.
+Definition next_stop (from colinc : Z) : Z := (Z.quot from colinc * colinc + colinc)%Z.
+Definition dir_t (at_ : bool) (params : list param) (out : list byte) : tres :=
+  match int_param params 0 0 true, int_param params 1 1 true with
+  | PVal colnum, PVal colinc =>
+      if at_ then
+        match pad out colnum with
+        | None => TFault
+        | Some out1 =>
+            let from := col_of out1 in
+            let target := if (colinc =? 0)%Z || (from =? Z.quot from colinc * colinc)%Z then from else next_stop from colinc in
+            t_finish out1 (target - from)
+        end
+      else
+        let from := col_of out in
+        let t0 := (colnum * colinc)%Z in
+        let target := if (colinc =? 0)%Z then Z.max colnum from else if (t0 <? from)%Z then next_stop from colinc else t0 in
+        t_finish out (target - from)
+  | _, _ => TErr
+  end.
 
 (* control.process *)
 Fixpoint process (tb : tabs) (s : list byte) (end_ : Z) (args : list fmtarg) (pos argpos : Z) (out : list byte) (fuel : nat) : outcome :=
@@ -138,6 +199,16 @@ Fixpoint process (tb : tabs) (s : list byte) (end_ : Z) (args : list fmtarg) (po
                      match count_of params with Some n => process tb s end_ args p a (out ++ rep n 126%N) f | None => OError end
                    else if N.eqb l 124%N then      (* ~| *)
                      match count_of params with Some n => process tb s end_ args p a (out ++ rep n 12%N) f | None => OError end
+                   else if N.eqb l 42%N then       (* ~* *)
+                     match move_of colon at_ params a with
+                     | MPos a' => process tb s end_ args p a' out f
+                     | MErr => OError
+                     | MUnm => OUnmodelled end
+                   else if N.eqb l 84%N || N.eqb l 116%N then   (* ~T ~t *)
+                     match dir_t at_ params out with
+                     | TOut out' => process tb s end_ args p a out' f
+                     | TErr => OError
+                     | TFault => OFault end
                    else OUnmodelled
                end
       end
